@@ -343,7 +343,15 @@ func Run(s *simrt.Sim, a *harness.Args, r *harness.Result) {
 				o.result = fmt.Sprint(err)
 				s.Logf("op%d create %q algo=%s -> %v", i, o.user, o.algo, err != nil)
 			case "setpass":
+				if failLookup && i%3 == 2 {
+					// the table is out of order while the operation runs: an
+					// operation that reports success must have taken effect,
+					// one that reports failure has changed nothing (the stub
+					// changes nothing when it fails)
+					w.tbl.FailWrites, w.tbl.FailNext = 2, 2
+				}
 				err := w.pt.SetUserPassword(o.user, o.pass)
+				w.tbl.FailWrites, w.tbl.FailNext = 0, 0
 				if err == nil {
 					if k, ok := key(o.user); ok {
 						w.ref[k] = o.pass
@@ -352,10 +360,33 @@ func Run(s *simrt.Sim, a *harness.Args, r *harness.Result) {
 				o.result = fmt.Sprint(err)
 				s.Logf("op%d setpass %q -> err=%v", i, o.user, err != nil)
 			case "delete":
+				if failLookup && i%3 != 1 {
+					w.tbl.FailWrites, w.tbl.FailNext = 2, 2
+				}
 				err := w.pt.DeleteUser(o.user)
+				w.tbl.FailWrites, w.tbl.FailNext = 0, 0
 				if err == nil {
 					if k, ok := key(o.user); ok {
+						old, existed := w.ref[k]
 						delete(w.ref, k)
+						if existed {
+							// a deletion that reported success: the password
+							// that was valid a moment ago no longer is
+							// (through a login name that the user-name map, if
+							// any, leads to the deleted account)
+							for _, n := range []string{o.user, "alice", "bob", "carol", "dave"} {
+								nk, ok1 := key(n)
+								m, ok2 := w.mapped(nk)
+								mk, ok3 := key(m)
+								if !ok1 || !ok2 || !ok3 || mk != k {
+									continue
+								}
+								if res := w.attempt(fmt.Sprintf("d%d", i), "plain", n, old, ""); res.ok && !w.expect(n, old) {
+									s.Violate("C14/accepted-deleted-account", "delete %q reported success, yet AUTH PLAIN %q with its last password still succeeds", o.user, n)
+								}
+								break
+							}
+						}
 					}
 				}
 				s.Logf("op%d delete %q -> err=%v", i, o.user, err != nil)
@@ -432,6 +463,27 @@ func Run(s *simrt.Sim, a *harness.Args, r *harness.Result) {
 	inconclusive := false
 	if len(s.Violations()) == 0 && s.T.Choose(st, 2) == 1 && w.mapK <= 1 {
 		accts := []string{"bob", "carol"}
+		if s.T.Choose(st, 2) == 0 {
+			// the accounts are made afresh with cheap (low-cost bcrypt or
+			// legacy) hashes, as an administrator's import tool would: whatever
+			// an implementation does with such entries when they are used, it
+			// must not disturb what the administrator does meanwhile
+			remade := false
+			s.Spawn("remake", nil, func() {
+				defer func() { remade = true }()
+				for i, ac := range accts {
+					k, _ := key(ac)
+					w.pt.DeleteUser(ac)
+					delete(w.ref, k)
+					algo := []string{"bcrypt", "bcrypt", "sha256"}[(i+s.Steps())%3]
+					if err := w.pt.CreateUserHash(ac, "pw1", algo, pass_table.HashOpts{BcryptCost: 4}); err == nil {
+						w.ref[k] = "pw1"
+					}
+				}
+			})
+			s.Run(time.Hour, func() bool { return remade })
+			s.Stat("concurrent_fresh_weak_accounts")
+		}
 		var hist []porcupine.Operation
 		// initial state goes into the history as completed operations
 		stamp := func() int64 { return int64(s.Steps()) }
@@ -456,19 +508,56 @@ func Run(s *simrt.Sim, a *harness.Args, r *harness.Result) {
 		var hmu = make(chan struct{}, 1)
 		hmu <- struct{}{}
 		rec := func(o porcupine.Operation) { <-hmu; hist = append(hist, o); hmu <- struct{}{} }
+		// the administrator is the only writer: whatever the clients do
+		// meanwhile, the accounts end up as its last successful operations left them
+		final := map[string]string{}
+		for _, ac := range accts {
+			k, _ := key(ac)
+			if cur, ok := w.ref[k]; ok {
+				final[k] = cur
+			}
+		}
+		doAdmin := func(o aop) {
+			k, _ := key(o.acct)
+			c := stamp()
+			if o.del {
+				if err := w.pt.DeleteUser(o.acct); err == nil {
+					delete(final, k)
+					rec(porcupine.Operation{ClientId: 0, Input: pin{"del", k, ""}, Call: c, Output: true, Return: stamp()})
+				}
+			} else if err := w.pt.SetUserPassword(o.acct, o.pass); err == nil {
+				final[k] = o.pass
+				rec(porcupine.Operation{ClientId: 0, Input: pin{"set", k, o.pass}, Call: c, Output: true, Return: stamp()})
+			}
+		}
+		// in half of the histories the administrator's operations do not run
+		// as a task of their own (which is over before the first client has
+		// said EHLO) but each in its entirety right after a credentials lookup
+		// of an authentication has read its value: the schedule in which an
+		// authentication decides on an entry that has just been replaced
+		inline := s.T.Choose(st, 2) == 0
+		adminBusy := false
+		if inline {
+			w.tbl.AfterLookup = func(string) {
+				if adminBusy || len(aops) == 0 || s.T.Choose("sched", 2) == 0 {
+					return
+				}
+				adminBusy = true
+				o := aops[0]
+				aops = aops[1:]
+				s.Stat("admin_op_inside_authentication")
+				doAdmin(o)
+				adminBusy = false
+			}
+		}
 		s.Spawn("admin", nil, func() {
 			defer func() { fin++ }()
+			if inline {
+				return
+			}
 			for _, o := range aops {
-				k, _ := key(o.acct)
 				simrt.Point("admin", "op")
-				c := stamp()
-				if o.del {
-					if err := w.pt.DeleteUser(o.acct); err == nil {
-						rec(porcupine.Operation{ClientId: 0, Input: pin{"del", k, ""}, Call: c, Output: true, Return: stamp()})
-					}
-				} else if err := w.pt.SetUserPassword(o.acct, o.pass); err == nil {
-					rec(porcupine.Operation{ClientId: 0, Input: pin{"set", k, o.pass}, Call: c, Output: true, Return: stamp()})
-				}
+				doAdmin(o)
 			}
 		})
 		for ci := 0; ci < nCl; ci++ {
@@ -489,10 +578,60 @@ func Run(s *simrt.Sim, a *harness.Args, r *harness.Result) {
 			})
 		}
 		s.Run(time.Hour, func() bool { return fin == nCl+1 })
+		w.tbl.AfterLookup = nil
+		if inline && len(aops) > 0 && fin == nCl+1 {
+			// what no lookup triggered happens afterwards
+			rest := false
+			s.Spawn("admin-rest", nil, func() {
+				defer func() { rest = true }()
+				for _, o := range aops {
+					doAdmin(o)
+				}
+			})
+			s.Run(time.Hour, func() bool { return rest })
+		}
 		if fin != nCl+1 && len(s.Violations()) == 0 {
 			simrt.Harnessf("concurrent phase did not finish; parked=%v", s.ParkedKeys())
 		}
 		s.Stat("concurrent_histories")
+		// quiescent state: authentication is a read - after everything has
+		// returned, exactly the password the administrator set last is valid
+		if len(s.Violations()) == 0 && fin == nCl+1 {
+			probed := false
+			s.Spawn("finalprobe", nil, func() {
+				defer func() { probed = true }()
+				for _, ac := range accts {
+					k, _ := key(ac)
+					cur, exists := final[k]
+					cands := []string{"c1", "c2", "c3", "pw1"}
+					if old, ok := w.ref[k]; ok && !contains(cands, old) {
+						cands = append(cands, old)
+					}
+					for j, p := range cands {
+						res := w.attempt(fmt.Sprintf("fp-%s-%d", ac, j), "plain", ac, p, "")
+						switch {
+						case exists && p == cur && !res.ok:
+							s.Violate("C14/rejected-current-password/after-concurrent", "after the concurrent phase AUTH PLAIN %q with the password set last (%q) failed: %s", ac, p, res.reply)
+						case exists && p != cur && res.ok:
+							s.Violate("C14/accepted-wrong-password/after-concurrent", "after the concurrent phase AUTH PLAIN %q succeeded with %q although the password set last is %q", ac, p, cur)
+						case !exists && res.ok:
+							s.Violate("C14/accepted-deleted-account/after-concurrent", "after the concurrent phase AUTH PLAIN %q succeeded with %q although the account was deleted last", ac, p)
+						}
+					}
+				}
+			})
+			s.Run(time.Hour, func() bool { return probed })
+			for k, v := range final {
+				w.ref[k] = v
+			}
+			for _, ac := range accts {
+				if k, _ := key(ac); final[k] == "" {
+					if _, ok := final[k]; !ok {
+						delete(w.ref, k)
+					}
+				}
+			}
+		}
 		resL, _ := porcupine.CheckOperationsVerbose(regModel, hist, 20*time.Second)
 		switch resL {
 		case porcupine.Illegal:
@@ -544,4 +683,13 @@ func (w *world) describe(user string) string {
 	k, _ := key(m)
 	cur, exists := w.ref[k]
 	return fmt.Sprintf("normalized %q, account %q exists=%v password=%q", n, k, exists, cur)
+}
+
+func contains(xs []string, x string) bool {
+	for _, y := range xs {
+		if y == x {
+			return true
+		}
+	}
+	return false
 }
